@@ -14,6 +14,8 @@ pub struct Parser<'a> {
     /// Source string for error reporting.
     #[allow(dead_code)]
     source: &'a str,
+    /// Current nesting depth of recursive grammar rules (see `enter_nested`).
+    nesting_depth: usize,
 }
 
 impl<'a> Parser<'a> {
@@ -22,10 +24,25 @@ impl<'a> Parser<'a> {
         let mut lexer = Lexer::new(source);
         let tokens = lexer.tokenize();
         Self {
+            nesting_depth: 0,
             tokens,
             position: 0,
             source,
         }
+    }
+
+    /// Maximum nesting depth of recursive grammar rules.
+    const MAX_NESTING_DEPTH: usize = 128;
+
+    /// Enters a recursive grammar rule. Recursive descent uses one chain of stack
+    /// frames per nesting level, so input that nests too deeply is rejected with an
+    /// error instead of overflowing the stack.
+    fn enter_nested(&mut self) -> Result<()> {
+        if self.nesting_depth >= Self::MAX_NESTING_DEPTH {
+            return Err(self.error("Query nesting is too deep"));
+        }
+        self.nesting_depth += 1;
+        Ok(())
     }
 
     /// Parses the query into a statement.
@@ -764,6 +781,13 @@ impl<'a> Parser<'a> {
     /// Parse a sub-traversal (e.g., g.V().has('name', 'Bob'))
     /// Returns the steps as a Vec<Step>
     fn parse_sub_traversal(&mut self) -> Result<Vec<Step>> {
+        self.enter_nested()?;
+        let result = self.parse_sub_traversal_inner();
+        self.nesting_depth -= 1;
+        result
+    }
+
+    fn parse_sub_traversal_inner(&mut self) -> Result<Vec<Step>> {
         // Consume 'g'
         self.expect(TokenKind::G)?;
         self.expect(TokenKind::Dot)?;
